@@ -424,3 +424,120 @@ Proof.
   - cbn [st with_ep]. exact Hl2'.
   - exact Hw'.
 Qed.
+
+(* ------------------------------------------------------------------- RET *)
+(* computations that touch neither the heap nor the Rc payloads (registers and stack only) *)
+Definition keeps_mem {A} (m : M A) : Prop :=
+  forall s, match m s with
+            | ROk _ s' | RErr _ _ s' => hp s' = hp s /\ st s' = st s
+            | _ => True end.
+
+Lemma keeps_mem_pure {A} (m : M A) : pure m -> keeps_mem m.
+Proof. intros Hp s. specialize (Hp s). destruct (m s); try exact I; subst; auto. Qed.
+Lemma keeps_mem_bind {A B} (m : M A) (f : A -> M B) :
+  keeps_mem m -> (forall a, keeps_mem (f a)) -> keeps_mem (bindM m f).
+Proof.
+  intros Hm Hf s. unfold bindM. specialize (Hm s). destruct (m s) as [a s1|e msg s1|k|]; auto.
+  specialize (Hf a s1). destruct (f a s1); auto; destruct Hm as [<- <-]; exact Hf.
+Qed.
+Lemma keeps_mem_ok {A} (m : M A) s a s' : keeps_mem m -> m s = ROk a s' -> hp s' = hp s /\ st s' = st s.
+Proof. intros Hk H. specialize (Hk s). rewrite H in Hk. exact Hk. Qed.
+Lemma keeps_mem_set_sp p : keeps_mem (set_sp p). Proof. intros s; cbn; auto. Qed.
+Lemma keeps_mem_set_ep p : keeps_mem (set_ep p). Proof. intros s; cbn; auto. Qed.
+Lemma keeps_mem_set_bp p : keeps_mem (set_bp p). Proof. intros s; cbn; auto. Qed.
+Lemma keeps_mem_set_ip p : keeps_mem (set_ip p). Proof. intros s; cbn; auto. Qed.
+Lemma keeps_mem_set_acc v : keeps_mem (set_acc v). Proof. intros s; cbn; auto. Qed.
+Lemma keeps_mem_push v : keeps_mem (push v). Proof. intros s; cbn; auto. Qed.
+
+Lemma pure_as_ep v : pure (as_ep v). Proof. destruct v; try apply pure_fail; apply pure_ret. Qed.
+Lemma pure_as_bp v : pure (as_bp v). Proof. destruct v; try apply pure_fail; apply pure_ret. Qed.
+Lemma pure_as_ip v : pure (as_ip v). Proof. destruct v; try apply pure_fail; apply pure_ret. Qed.
+Lemma pure_cur_lambda : pure cur_lambda.
+Proof.
+  intros s. unfold cur_lambda. destruct (heap_get (hp s) (fst (ip s))) as [x| | |]; try exact I; try reflexivity.
+  destruct x; try exact I. apply pure_get_lambda.
+Qed.
+
+(* the body of RET in run_one (run.rs:299-311) *)
+Definition ret_body : M bool :=
+  dom s <- get_vm;
+  dom a <- stack_get (bp s + 1); dom n <- as_argc a;
+  dom nsp <- usub (bp s) n;
+  dom _ <- set_sp nsp;
+  dom e <- stack_get (bp s + 2); dom e' <- as_ep e; dom _ <- set_ep e';
+  dom i <- stack_get (bp s + 3); dom i' <- as_ip i; dom _ <- set_ip i';
+  dom b <- stack_get (bp s + 4); dom b' <- as_bp b; dom _ <- set_bp b';
+  ret false.
+
+Lemma run_one_ret ob s s0 : read_opcode s = ROk ORet s0 -> run_one ob s = ret_body s0.
+Proof. intros H. unfold run_one. unfold bindM at 1. rewrite H. reflexivity. Qed.
+
+Lemma keeps_mem_read_opcode : keeps_mem read_opcode.
+Proof.
+  unfold read_opcode. apply keeps_mem_bind; [apply keeps_mem_pure, pure_cur_lambda|]. intros l.
+  apply keeps_mem_bind; [apply keeps_mem_pure, pure_get_vm|]. intros s.
+  destruct (list_get (l_bc l) (snd (ip s))) as [[]|]; try (apply keeps_mem_pure, pure_fail).
+  apply keeps_mem_bind; [apply keeps_mem_set_ip|]. intros _. apply keeps_mem_pure, pure_ret.
+Qed.
+
+Lemma keeps_mem_ret_body : keeps_mem ret_body.
+Proof.
+  unfold ret_body.
+  apply keeps_mem_bind; [apply keeps_mem_pure, pure_get_vm|]. intros s.
+  apply keeps_mem_bind; [apply keeps_mem_pure, pure_stack_get|]. intros a.
+  apply keeps_mem_bind; [apply keeps_mem_pure, pure_as_argc|]. intros n.
+  apply keeps_mem_bind; [apply keeps_mem_pure, pure_usub|]. intros nsp.
+  apply keeps_mem_bind; [apply keeps_mem_set_sp|]. intros _.
+  apply keeps_mem_bind; [apply keeps_mem_pure, pure_stack_get|]. intros e.
+  apply keeps_mem_bind; [apply keeps_mem_pure, pure_as_ep|]. intros e'.
+  apply keeps_mem_bind; [apply keeps_mem_set_ep|]. intros _.
+  apply keeps_mem_bind; [apply keeps_mem_pure, pure_stack_get|]. intros i.
+  apply keeps_mem_bind; [apply keeps_mem_pure, pure_as_ip|]. intros i'.
+  apply keeps_mem_bind; [apply keeps_mem_set_ip|]. intros _.
+  apply keeps_mem_bind; [apply keeps_mem_pure, pure_stack_get|]. intros b.
+  apply keeps_mem_bind; [apply keeps_mem_pure, pure_as_bp|]. intros b'.
+  apply keeps_mem_bind; [apply keeps_mem_set_bp|]. intros _.
+  apply keeps_mem_pure, pure_ret.
+Qed.
+
+(* a slot read depends on the heap, the environment payloads and %ep only *)
+Lemma location_ext s s' p k : hp s' = hp s -> st s' = st s -> location s' p k = location s p k.
+Proof.
+  intros Hh Hs. unfold location. rewrite (env_at_ext s s' p Hh Hs).
+  destruct (env_at s p) as [[e l]|]; [|reflexivity].
+  destruct (list_get l k) as [c|]; [|reflexivity].
+  destruct c; try reflexivity. rewrite (env_at_ext s s' env Hh Hs). reflexivity.
+Qed.
+
+Lemma load_lex_slot_ext s s' k v :
+  hp s' = hp s -> st s' = st s -> ep s' = ep s ->
+  load_lex_slot k s = ROk v s -> load_lex_slot k s' = ROk v s'.
+Proof.
+  intros Hh Hs He H. apply load_lex_slot_inv in H as (_ & e & j & l & Hloc & Hl & Hv).
+  eapply load_reads_location; [rewrite He, (location_ext s s' _ _ Hh Hs); exact Hloc| |exact Hv].
+  rewrite Hs. exact Hl.
+Qed.
+
+(* (b) a binding outlives the activation that created it: RET restores %sp, %ep, %ip and
+   %bp from the frame and touches neither the heap nor any environment payload.  Every
+   environment object — in particular the returning activation's, which closures
+   created in it point to — is still there with the same slots, every closure cell is
+   intact, and a slot read with that environment installed gives the same value. *)
+Theorem binding_outlives_creator ob s s0 r s' :
+  read_opcode s = ROk ORet s0 -> run_one ob s = ROk r s' ->
+  hp s' = hp s /\ st s' = st s /\
+  (forall p, env_at s' p = env_at s p) /\
+  (forall a lam env, heap_get (hp s) a = Ok (VClosure lam env) ->
+                     heap_get (hp s') a = Ok (VClosure lam env) /\ env_at s' env = env_at s env) /\
+  (forall env k v, load_lex_slot k (with_ep s env) = ROk v (with_ep s env) ->
+                   load_lex_slot k (with_ep s' env) = ROk v (with_ep s' env)).
+Proof.
+  intros Hop H. rewrite (run_one_ret ob s s0 Hop) in H.
+  destruct (keeps_mem_ok _ _ _ _ keeps_mem_read_opcode Hop) as [Hh0 Hs0].
+  destruct (keeps_mem_ok _ _ _ _ keeps_mem_ret_body H) as [Hh1 Hs1].
+  assert (Hh : hp s' = hp s) by congruence. assert (Hs : st s' = st s) by congruence.
+  split; [exact Hh|]. split; [exact Hs|].
+  split; [intros p; apply env_at_ext; assumption|].
+  split; [intros a lam env Ha; rewrite Hh; split; [exact Ha|apply env_at_ext; assumption]|].
+  intros env k v Hl. eapply load_lex_slot_ext; [| | |exact Hl]; cbn [hp st ep with_ep]; auto.
+Qed.
